@@ -46,7 +46,9 @@ func TestPropBitmap(t *testing.T) {
 
 func TestPropEpoch(t *testing.T) {
 	vstat.Checks(5000, 80000)
-	kinds := []pools.Kind{pools.OpAlloc, pools.OpRelease, pools.OpRenew, pools.OpAdvance}
+	// OpSetAlloc = EpochBitmapAllocator.SetAllocation called directly (what loadAllocations / handleRemoteChange do with
+	// a record): re-applied, moving, and conflicting records
+	kinds := []pools.Kind{pools.OpAlloc, pools.OpRelease, pools.OpRenew, pools.OpAdvance, pools.OpSetAlloc}
 	rapid.Check(t, func(rt *rapid.T) {
 		cidr := pools.GenEpochNet(true).Draw(rt, "net")
 		grace := uint64(rapid.SampledFrom([]int{0, 1, 1, 1, 1, 1, 1, 1, 1, 1, 2, 3}).Draw(rt, "grace"))
@@ -57,7 +59,7 @@ func TestPropEpoch(t *testing.T) {
 			return
 		}
 		// up to 12 advances per history (the 2-bit generation wraps after 4)
-		ops := pools.GenOps(kinds, []int{4, 2, 5, 7}, len(subs), 8, 40).Draw(rt, "ops")
+		ops := pools.GenOps(kinds, []int{4, 2, 5, 7, 3}, len(subs), 8, 40).Draw(rt, "ops")
 		cs := true
 		if f.Usable > 0 && f.Grace <= 1 {
 			cs = statsChecked(rt, "C05/epoch/stats-mismatch/after-advance")
